@@ -137,6 +137,3 @@ Definition dagree (v : view) (c : dcase) : bool :=
 Definition ddisagreements (v : view) (cs : list dcase) : list N :=
   (bad (dagree v) cs 0%N ++ bad (dagree VFull) cs 1000000%N)%list.
 
-(* scripted handlers *)
-Definition const_handler (name : string) (sg : hsig) (out : h_out) : handler :=
-  mkHandler name sg (fun _ _ => out).
